@@ -162,6 +162,17 @@ def install_ipaddress(it):
 
     def wrap(fn):
         def m(it_, addr, *a, **k):
+            from ..values import SInt
+            from .ip import SymIP, ip_address_of_int
+
+            u = it_.unbase(addr)
+            if fn is _ip.ip_address and not a and not k:
+                if isinstance(u, SymIP):
+                    return u
+                if isinstance(u, SInt):
+                    return ip_address_of_int(it_, u)
+            if isinstance(u, SymIP):
+                raise Unsupported("ip_network() of a symbolic address")
             if addr is None or isinstance(addr, PObj) and not addr.has_base:
                 note("ipaddress", "ip_address(o)/ip_network(o) parse str(o) for an object that is not an int or bytes (ValueError when that text is not an address, e.g. a default object repr)")
                 from .strings import str_of
